@@ -222,8 +222,16 @@ def run_planted(ctx, case):
     else:
         m, n, dim = case['m'], case['n'], min(case['dim'], case['m'] * case['n'] - 1)
         ctx.note(klass='real_rank_one', desc=[m, n, dim, planted], nontrivial=(planted and dim >= 2), labels=['planted' if planted else 'generic'])
-        low = np.outer(r.normal(size=m), r.normal(size=n))
-        gens = np.stack(([low] if planted else [r.normal(size=(m, n))]) + [r.normal(size=(m, n)) for _ in range(dim - 1)])
+        symmetric = (m == n and case['prng'] % 2 == 0)  # a subspace of real SYMMETRIC matrices (its own structure class in the basis routine), planted element x x^T
+        if symmetric:
+            x = r.normal(size=m)
+            sym = lambda: (lambda z: (z + z.T) / 2)(r.normal(size=(m, m)))  # noqa: E731
+            dim = min(dim, m * (m + 1) // 2 - 1)
+            gens = np.stack(([np.outer(x, x)] if planted else [sym()]) + [sym() for _ in range(max(0, dim - 1))])
+            ctx.label('symmetric subspace')
+        else:
+            low = np.outer(r.normal(size=m), r.normal(size=n))
+            gens = np.stack(([low] if planted else [r.normal(size=(m, n))]) + [r.normal(size=(m, n)) for _ in range(dim - 1)])
         mixed = _hide(r, gens, 'real')
         if m != n:
             ctx.label('non-square: detector documented for square matrices, padded')
